@@ -224,7 +224,7 @@ CHECKS['C01'] = dict(
          "reading of the sentence holds, any specification, universe and interpretation): constraints over one quantified clause in both "
          "polarities (C01_single_clause_constraint_partial), the same restricted by 'where X is one of v1..vn' "
          "(C01_single_clause_one_of_partial, with the printer/parser round trip of integers proved in Base/DigitsRoundtrip.v) and named-instance constraints 'there is [not] a <relation> with ...' "
-         "(C01_named_instance_constraint_partial), and derived definitions over one quantified clause 'A c X is <p> when c X [does not] <verb> d Y' (C01_single_clause_definition_partial: the ground instances are closed in I and support every p-atom of a declared subject iff the reading holds; with C01_hierarchical_stable that is the definition's share of stability), and choice sentences with and without for-each for EVERY cardinality phrase (C01_choice_for_each_bounds_partial, C01_choice_bounds_partial: the bounds of the ground choice rules hold in I iff every declared subject is related to a number of distinct declared objects within the stated bounds), and the single-clause constraint restricted by 'where X <phrase> Y' for EVERY comparison phrase (C01_single_clause_where_partial); for WHOLE specifications with any number of concepts and sentences of these kinds, over the specification's own universe, the constraint-and-bounds part of stability of the ground program equals the conjunction of the readings of the constraint and choice sentences (C01_program_constraints_and_bounds_partial), closedness equals 'every declared value holds' (C01_program_closed_without_definitions) and supportedness equals 'nothing but declared values and admissible chosen atoms' (C01_program_supported_partial); together, with the proof that such ground programs are hierarchical: C01_answer_sets_are_the_models_partial -- for every specification of concepts, choice sentences (every cardinality phrase, with or without for-each), single-clause constraints (with or without 'where', or restricted by 'is one of') and named-instance constraints, any number of each, an interpretation that holds exactly the declared concept values is STABLE for the ground compiled program iff it is a model of the reading (the quick tier reports how many generated specifications fall in that scope), and C01_answer_sets_are_the_models_every_interpretation_partial removes that hypothesis (it follows from either side when concept names are pairwise different and contain no parenthesis): for EVERY interpretation, stable (ground s) I <-> reading s I; C01_one_of_multiplies: a 'where L is one of' clause multiplies the rules. The theorem "
+         "(C01_named_instance_constraint_partial), and derived definitions over one quantified clause 'A c X is <p> when c X [does not] <verb> d Y' (C01_single_clause_definition_partial: the ground instances are closed in I and support every p-atom of a declared subject iff the reading holds; with C01_hierarchical_stable that is the definition's share of stability), and choice sentences with and without for-each for EVERY cardinality phrase (C01_choice_for_each_bounds_partial, C01_choice_bounds_partial: the bounds of the ground choice rules hold in I iff every declared subject is related to a number of distinct declared objects within the stated bounds), and the single-clause constraint restricted by 'where X <phrase> Y' for EVERY comparison phrase (C01_single_clause_where_partial); for WHOLE specifications with any number of concepts and sentences of these kinds, over the specification's own universe, the constraint-and-bounds part of stability of the ground program equals the conjunction of the readings of the constraint and choice sentences (C01_program_constraints_and_bounds_partial), closedness equals 'every declared value holds' (C01_program_closed_without_definitions) and supportedness equals 'nothing but declared values and admissible chosen atoms' (C01_program_supported_partial); together, with the proof that such ground programs are hierarchical: C01_answer_sets_are_the_models_partial -- for every specification of concepts, choice sentences (every cardinality phrase, with or without for-each), single-clause constraints (with or without 'where', or restricted by 'is one of') and named-instance constraints, any number of each, an interpretation that holds exactly the declared concept values is STABLE for the ground compiled program iff it is a model of the reading (the quick tier reports how many generated specifications fall in that scope), and C01_answer_sets_are_the_models_every_interpretation_partial removes that hypothesis (it follows from either side when concept names are pairwise different and contain no parenthesis): for EVERY interpretation, stable (ground s) I <-> reading s I; the same WITH single-clause derived definitions in the program (three levels; C01_answer_sets_are_the_models_with_definitions_partial and ..._every_interpretation_partial, under the decidable separation `separated_d` and pairwise different definition predicates); C01_one_of_multiplies: a 'where L is one of' clause multiplies the rules. The theorem "
          "'stable (ground (compile s)) I <-> reading s I' for ALL F0 specifications is not proved (see DESIGN 11.1): partial.",
     note="Trusted: Coq kernel; clingo as external semantics (it also validates Asp/Ground.v); Lark's parse of rendered sentences; the reading "
          "(Cnl/Core.v: r_sentence) is the specification.",
